@@ -124,7 +124,7 @@ CLAIMED.update({
         text=("C11_validate_iff, C11_codename_iff, C11_order_independent, C11_only_sections, C11_rounds_first, C11_rounds_all_invalid proved for "
               "all release file lists; on Model/ReleaseStage.lean (reset/add/download/drop per round, the tries loop) C11_round_drops_unobtained and "
               "C11_stage_drops_unobtained prove for every prior skel content (files of an earlier or killed run), every server script and every "
-              "verdict sequence that a release file left in skel was obtained by the last round, C11_stage_first / C11_stage_all_invalid restate "
+              "verdict sequence that a release file left in skel was obtained by the last round, C11_stage_round_bound (1..max(1,retries) rounds for every verdict sequence), C11_stage_first / C11_stage_all_invalid restate "
               "the round counts on the concrete stage; the real RepositoryMirror.download_release_files is run over the scripted transport from "
               "skel trees with stale release files and compared with the model (outcome, rounds, requests, skel content, obtained paths); "
               "real validate_release_files is compared with the model and an independent pairwise spec on mutated "
